@@ -300,6 +300,7 @@ type V1 struct {
 	A int    `json:"a"`
 	S string `json:"s"`
 }
+
 // V2 is deliberately not stable under a JSON round trip: memo is unexported
 // (lost), Extra holds an int that comes back as float64, and decoding rejects
 // A == 13.  A typed chain hands every step the value DECODED from the previous
